@@ -115,6 +115,33 @@ func runC10(w *World, r *Report) {
 	for _, c := range ends {
 		r.Check(hasGuard(c.Block(), func(g guard) bool { return guardIsNil(g, isErrOfCall) }), "C10.pairing-node", cons+": onEnd only when err == nil", c.Pos(), "guarded by err == nil", "onEnd is not restricted to the err == nil arm")
 	}
+	// a unit that has started is ended also when the wrapped function panics: the wrapper defers — before the call — a
+	// literal that recovers, reports the panic through onError and lets the panic travel on
+	{
+		var dlit *ssa.Function
+		var dfr *ssa.Defer
+		for d, l := range deferredFuncs(lit) {
+			if l != nil {
+				dlit, dfr = l, d
+			}
+		}
+		okp, det := false, "the wrapper defers nothing"
+		if dlit != nil {
+			hasRecover, hasRepanic := false, false
+			callsOnError := len(callsThrough(dlit, freeVarNamed(pn(3)))) > 0
+			instrs(dlit, func(in ssa.Instruction) {
+				if isBuiltin(in, "recover") {
+					hasRecover = true
+				}
+				if isPanicI(in) {
+					hasRepanic = true
+				}
+			})
+			okp = hasRecover && callsOnError && hasRepanic && instrDominates(dfr, inner[0])
+			det = fmt.Sprintf("recover=%v, onError=%v, re-panic=%v, registered before the call=%v", hasRecover, callsOnError, hasRepanic, instrDominates(dfr, inner[0]))
+		}
+		r.Check(okp, "C10.pairing-node", cons+": a panic of the wrapped function is reported as the unit's error", lit.Pos(), "deferred recover -> onError -> panic again", "a node / tool call that panics gets OnStart but neither OnEnd nor OnError ("+det+"): the panic is turned into the unit's error further out (executor, tool goroutine), but this unit's handlers never see an end")
+	}
 	// the four paradigm wrappers pass the matching hooks
 	for _, wnm := range []struct{ fn, start, end string }{
 		{"invokeWithCallbacks", "onStart", "onEnd"},
@@ -308,6 +335,19 @@ func runC10(w *World, r *Report) {
 				}
 			}
 			r.Check(good, "C10.inject-iff-not-self", construct, c.Pos(), how, "enableCallback is neither false nor the negation of the executor's callbacks-enabled flag: callbacks would fire twice or not at all")
+			// a constant false is only right when somebody else fires the callbacks: where the same function builds
+			// the executor's meta with isComponentCallbackEnabled = false (the component does NOT fire them itself),
+			// the packer must — enableCallback has to be true
+			if b, ok := constBool(a); ok && !b {
+				for _, fw := range fieldWrites(fn) {
+					if fw.field.Name() != "isComponentCallbackEnabled" {
+						continue
+					}
+					if fb, ok := constBool(fw.val); ok && !fb {
+						r.Fail("C10.inject-iff-not-self", construct+" vs meta.isComponentCallbackEnabled=false", c.Pos(), "the executor meta built in this function says the component does not fire callbacks itself, and the packer is told not to fire them either: this unit (an UnknownToolsHandler call) reports neither OnStart nor OnEnd/OnError to any handler")
+					}
+				}
+			}
 		}
 	}
 	// newRunnablePacker wraps exactly under the flag
